@@ -95,6 +95,7 @@ def _ref_module_strings(d: Decl) -> str:
             body += 'Ok(())'
         out.append('    pub fn validate(x: &Inner) -> Result<(), Error> { %s }\n' % body)
         out.append('    pub fn try_new(raw: Inner) -> Result<Inner, Error> { let s = sanitize(raw); validate(&s)?; Ok(s) }\n')
+    out.append('    pub fn valid(x: &Inner) -> bool { %s }\n' % ('validate(x).is_ok()' if d.has_validation else 'true'))
     out.append('    pub fn show(r: &Result<Inner, Error>) -> String { match r { Ok(v) => format!("Ok({:?})", v), Err(e) => format!("Err({})", e) } }\n')
     out.append('}\n')
     return ''.join(out)
